@@ -4,6 +4,7 @@ import AslProofs.Euler
 import AslProofs.AxisAngle
 import AslProofs.RealTrig
 import AslProofs.RotSO3
+import AslProofs.EulerBand
 import Mathlib.LinearAlgebra.Matrix.Nondegenerate
 import Mathlib.LinearAlgebra.CrossProduct
 import Gen.Vec3Gen
@@ -504,11 +505,51 @@ theorem euler_arguments (T : Trig R) (hu : ∀ x, T.cos x * T.cos x + T.sin x * 
     rw [← e4]; linear_combination (M a0 a1 * M a0 a1) * (-hs2)
   rw [e4', e5]; linear_combination (T.cos r.y * T.cos r.y) * huz
 
-/-! Not proved (stated in LEVEL_NOTE): the band `0 < c ≤ lim` between the two theorems above (`euler_roundtrip` needs
-`lim < c`, `euler_roundtrip_locked` needs `c = 0`).  There `r0 = 0` is used and the result is an approximation; the
-reviewer's suggested statement is: for `0 ≤ c ≤ lim` every entry of `rotateE(eulerAngles(rotateE r)) − rotateE r` has
-absolute value `≤ 2c` (over the ordered field, from `TrigOK` alone).  In floating point the band is `c ≤ 16 eps` and the
-numeric check bounds the error there by `64 eps`. -/
+/-- **between the threshold and the exact lock** (`c ≤ lim`, where `c = |cos β|` for three different axes and `|sin β|` for
+first = third axis; the source then sets the last extracted angle to 0 and uses the locked formulas): the rebuilt matrix
+agrees with the original up to `2·lim` in every entry of the row of the first rotation axis and of the column of the last
+one (5 of the 9 entries; the entry holding `sin β` resp. `cos β` is reproduced exactly, see `euler_tb_band`/`euler_pe_band`).
+All 12 axis orders, moving and fixed frames, every angle triple. -/
+theorem euler_nearlock_partial {T : Trig R} (hT : TrigOK T) {C : Cmp R} (hC : CmpStd C) (lim : R) (fixed : Bool) (r : V3 R)
+    (a0 a1 a2 : Nat) (h0 : a0 < 3) (h1 : a1 < 3) (h2 : a2 < 3) (h01 : a0 ≠ a1) (h12 : a1 ≠ a2)
+    (hband : if a0 = a2 then |T.sin r.y| ≤ lim else |T.cos r.y| ≤ lim) :
+    ∀ i j, i < 3 → j < 3 → (i = (if fixed then a2 else a0) ∨ j = (if fixed then a0 else a2)) →
+      |Gen.M4.rotateEs (fld R) T
+          (Gen.M4.eulerAngless (fld R) C T lim (Gen.M4.rotateEs (fld R) T r a0 a1 a2 fixed) a0 a1 a2 fixed) a0 a1 a2 fixed i j -
+        Gen.M4.rotateEs (fld R) T r a0 a1 a2 fixed i j| ≤ 2 * lim := by
+  cases fixed
+  · simp only [Gen.M4.rotateEs, Gen.M4.eulerAngless, Bool.false_eq_true, if_false]
+    by_cases e : a0 = a2
+    · subst e
+      rw [if_pos rfl] at hband
+      exact euler_pe_band_all hT hC lim r a0 a1 h0 h1 h01 hband _ rfl _ rfl _ rfl
+    · rw [if_neg e] at hband
+      exact euler_tb_band_all hT hC lim r a0 a1 a2 h0 h1 h2 h01 h12 e hband _ rfl _ rfl _ rfl
+  · simp only [Gen.M4.rotateEs, Gen.M4.eulerAngless, if_true, zyx_zyx]
+    by_cases e : a0 = a2
+    · subst e
+      rw [if_pos rfl] at hband
+      exact euler_pe_band_all hT hC lim (Gen.M4.zyx r) a0 a1 h0 h1 h01 hband _ rfl _ rfl _ rfl
+    · rw [if_neg e] at hband
+      exact euler_tb_band_all hT hC lim (Gen.M4.zyx r) a2 a1 a0 h2 h1 h0 (Ne.symm h12) (Ne.symm h01) (Ne.symm e) hband _ rfl _ rfl _ rfl
+
+/-- the full statement for the band (NOT proved; numerically the constant 2 is attained): for a threshold `lim ≤ 1/2`
+ALL nine entries agree up to `2·lim`.  The four entries not covered by `euler_nearlock_partial` depend on the first extracted
+angle, which `atan2` reads from a point at distance `√(1 − c² sin²γ)` from the origin; bounding them needs that normalisation. -/
+def euler_nearlock_full (T : Trig R) (C : Cmp R) : Prop :=
+  ∀ (lim : R) (fixed : Bool) (r : V3 R) (a0 a1 a2 : Nat), lim ≤ 1 / 2 → a0 < 3 → a1 < 3 → a2 < 3 → a0 ≠ a1 → a1 ≠ a2 →
+    (if a0 = a2 then |T.sin r.y| ≤ lim else |T.cos r.y| ≤ lim) →
+    ∀ i j, i < 3 → j < 3 →
+      |Gen.M4.rotateEs (fld R) T
+          (Gen.M4.eulerAngless (fld R) C T lim (Gen.M4.rotateEs (fld R) T r a0 a1 a2 fixed) a0 a1 a2 fixed) a0 a1 a2 fixed i j -
+        Gen.M4.rotateEs (fld R) T r a0 a1 a2 fixed i j| ≤ 2 * lim
+
+/-- the band hypothesis of `euler_nearlock_partial` is satisfiable strictly between lock and threshold (real functions,
+`β = π/3`, `cos β = 1/2 = lim`) -/
+example : 0 < |realTrig.cos (Real.pi / 3)| ∧ |realTrig.cos (Real.pi / 3)| ≤ (1 / 2 : ℝ) := by
+  have e : realTrig.cos (Real.pi / 3) = 1 / 2 := Real.cos_pi_div_three
+  rw [e, abs_of_pos (by norm_num)]
+  exact ⟨by norm_num, le_refl _⟩
 
 end euler
 
